@@ -726,6 +726,11 @@ def _merge_blocks(dg, graph):
             succ in to_ignore):
             continue
 
+        # The parent may have other destinations, not (yet) present in the
+        # graph: its last instruction still matters
+        if len(block.bto) != 1:
+            continue
+
         # Remove block last instruction if needed
         last_instr = block.lines[-1]
         if last_instr.delayslot > 0:
